@@ -970,7 +970,7 @@ fn gen_prefixes(rng: &mut Rng64, level: usize, must: &[Vec<bool>], extra: usize)
         set.insert((0..=level).map(|_| rng.bool()).collect());
         tries += 1;
     }
-    set.into_iter().map(|b| IdpfInput::from_bools(&b)).collect()
+    set.into_iter().map(|b| crate::common::to_input(&b)).collect()
 }
 
 fn run_poplar(ctx: &mut Ctx, rng: &mut Rng64, real: bool, leaf: bool, trees: usize) {
@@ -1023,7 +1023,7 @@ fn run_poplar(ctx: &mut Ctx, rng: &mut Rng64, real: bool, leaf: bool, trees: usi
     let mut anomaly = None;
     for m in &ms {
         let nonce: [u8; 16] = rng.array();
-        let inp = IdpfInput::from_bools(m);
+        let inp = crate::common::to_input(m);
         let Ok(Ok((ps, shares))) = catch(|| vdaf.shard(b"c13", &inp, &nonce)) else {
             ctx.count("real_reports_not_sharded");
             continue;
